@@ -81,12 +81,24 @@ where
     loop {
         let mut is_newline = false;
 
-        if reader.fill_buf()?.starts_with(&[CARRIAGE_RETURN]) {
+        let src = match reader.fill_buf() {
+            Ok(src) => src,
+            Err(ref e) if e.kind() == io::ErrorKind::Interrupted => continue,
+            Err(e) => return Err(e),
+        };
+
+        if src.starts_with(&[CARRIAGE_RETURN]) {
             is_newline = true;
             reader.consume(1);
         }
 
-        if reader.fill_buf()?.starts_with(&[LINE_FEED]) {
+        let src = match reader.fill_buf() {
+            Ok(src) => src,
+            Err(ref e) if e.kind() == io::ErrorKind::Interrupted => continue,
+            Err(e) => return Err(e),
+        };
+
+        if src.starts_with(&[LINE_FEED]) {
             is_newline = true;
             reader.consume(1);
         }
@@ -119,7 +131,11 @@ where
     let mut len = 0;
 
     while buf.len() < max_bases {
-        let src = reader.fill_buf()?;
+        let src = match reader.fill_buf() {
+            Ok(src) => src,
+            Err(ref e) if e.kind() == io::ErrorKind::Interrupted => continue,
+            Err(e) => return Err(e),
+        };
 
         if src.is_empty() {
             break;
